@@ -1,4 +1,6 @@
 """C07 zigzag persistence: births_ <-> birthOrdering_ bookkeeping as a counting path rule (DESIGN 4/C07)."""
+import re
+
 from gsa import facts, ir, paths
 from rules import findrule, c09
 from gsa.facts import Unit, rel, AnalysisBroken
@@ -269,6 +271,47 @@ def run_slot_order(chk, F):
     chk.expect_count('E11-slot-order', 'comparators over column indices', n, 3)
 
 
+def run_label_arithmetic(chk, F):
+    """E3-label-size: the dimension of a cell is a label chosen by the caller (any value of the Dimension type, -1 for
+    the empty simplex of an augmented complex included): it sizes nothing. A call of reserve / resize / a container
+    constructor whose argument mentions a parameter of type Dimension sits under a test that bounds that parameter on
+    both sides - otherwise `dimension * 2` is a signed overflow or a huge size_t (std::length_error thrown after the
+    arrow counter and the key dictionary were updated)."""
+    n = 0
+    for f in F.functions:
+        if '/Zigzag_persistence/' not in f['file'] or f.get('inst') not in (0, 2) or f.get('body') is None:
+            continue
+        dps = {q['n'] for q in f.get('params', []) if (q.get('t') or '').split('::')[-1].strip() == 'Dimension'}
+        if not dps:
+            continue
+        par = ir.parents(f['body'])
+        for x in ir.walk(f['body']):
+            if not (ir.is_call(x) and ir.call_name(x) in ('reserve', 'resize')):
+                continue
+            used = {y.get('n') for a in ir.call_args(x) for y in ir.walk(a) if y.get('k') == 'DeclRefExpr'} & dps
+            if not used:
+                continue
+            n += 1
+            d = sorted(used)[0]
+            lower = upper = False
+            cur = x
+            while id(cur) in par:
+                up = par[id(cur)]
+                if up.get('k') == 'IfStmt' and (cur is up.get('then') or ir.contains(up.get('then'), lambda y: y is x)):
+                    t = ir.show(up.get('cond')).replace(' ', '')
+                    if re.search(r'%s>=?-?\d' % d, t) or re.search(r'\d<=?%s' % d, t):
+                        lower = True
+                    if re.search(r'%s<=?\d' % d, t) or re.search(r'\d>=?%s' % d, t):
+                        upper = True
+                cur = up
+            ok = lower and upper
+            chk.ob('E3-label-size', '%s::%s: `%s` is sized from the dimension label only inside bounds on it' % (
+                f.get('clsname'), f['name'], ir.show(x)[:50]), '%s:%s' % (rel(f['file']), x.get('l')), ok,
+                '' if ok else 'the label `%s` is not bounded %s here: -1 gives a size of 2^64 - 2, 2^30 a signed overflow'
+                % (d, 'below' if not lower else 'above'), key='E3|%s::%s|label-size' % (f.get('clsname'), f['name']))
+    chk.count('containers sized from a dimension label', n)
+
+
 def run(tier, replay=None):
     chk = Check('C07', tier,
                 'Static decision of one bookkeeping clause of zigzag persistence: on every path of the forward arrow, '
@@ -345,6 +388,7 @@ def run(tier, replay=None):
     c05.run_dimension_overwrite(chk, F, min_count=1)
     run_slot_order(chk, F)
     run_first_value(chk, F)
+    run_label_arithmetic(chk, F)
     findrule.run(chk, F, ('zigzag_persistence.h', 'filtered_zigzag_persistence.h'), {
         'Zigzag_persistence::_process_backward_arrow|births_':
             'every chain of F (unpaired column) has an entry in births_: the creation / registration lock-step rule '
